@@ -180,6 +180,11 @@ def step (t : AclTable) (T : Tree) (w : Wrapper) : Step → Except NavErr Wrappe
   | .restrict f =>
     .ok ⟨w.path, if t.restrictOrs then w.flags.union f else f, if f.loc then [] else w.lps⟩
 
+/-- the error of an outcome, if any (for stating concrete examples) -/
+def errOf {α : Type} : Except NavErr α → Option NavErr
+  | .error e => some e
+  | .ok _ => none
+
 /-- a navigation chain -/
 def nav (t : AclTable) (T : Tree) : List Step → Wrapper → Except NavErr Wrapper
   | [], w => .ok w
@@ -239,24 +244,33 @@ def stateAfter {σ α : Type} (s : σ) : Except NavErr (σ × α) → σ
 
 def subset (a b : List String) : Bool := a.all b.contains
 
-def TableOk (t : AclTable) : Bool :=
-  (allPrims.all fun p => t.wrapsPrim p.name) && t.wrapsPrim "parent" &&
-  t.childKwargsInheritAll && t.restrictOrs && t.parentMode == .lpUnion && t.absGuardLocal &&
-  t.propertyFallbackRefused &&
-  (mutatingOps.all fun op => (t.guardsOf op).contains .ro) &&
-  (readingOps.all fun op => (t.guardsOf op).contains .skel) &&
-  (upwardOps.all fun op => (t.guardsOf op).contains .loc) &&
+/-- the conditions of a well-formed table, one per entry -/
+def tableConds (t : AclTable) : List Bool := [
+  allPrims.all fun p => t.wrapsPrim p.name,
+  t.wrapsPrim "parent",
+  t.childKwargsInheritAll,
+  t.restrictOrs,
+  t.parentMode == .lpUnion,
+  t.absGuardLocal,
+  t.propertyFallbackRefused,
+  mutatingOps.all fun op => (t.guardsOf op).contains .ro,
+  readingOps.all fun op => (t.guardsOf op).contains .skel,
+  upwardOps.all fun op => (t.guardsOf op).contains .loc,
   -- attribute manager: wrapped for ro and skel; whitelists never empty out (the
   -- `allowed or set()` trap would switch all checks off); skel admits no value-yielding
   -- method, ro admits no mutating method
-  t.attrsWrappedFor.contains .ro && t.attrsWrappedFor.contains .skel &&
-  (t.attrWhitelist.all fun e => e.1 == .ro || e.1 == .skel) &&
-  !(t.attrAllowed ⟨true, false, false⟩).isEmpty && !(t.attrAllowed ⟨false, false, true⟩).isEmpty &&
-  !(t.attrAllowed ⟨true, false, true⟩).isEmpty &&
-  (attrMutMethods.all fun m => !(t.attrAllowed ⟨true, false, false⟩).contains m) &&
-  (attrMutMethods.all fun m => !(t.attrAllowed ⟨true, false, true⟩).contains m) &&
-  (attrValueMethods.all fun m => !(t.attrAllowed ⟨false, false, true⟩).contains m) &&
-  (attrValueMethods.all fun m => !(t.attrAllowed ⟨true, false, true⟩).contains m)
+  t.attrsWrappedFor.contains .ro,
+  t.attrsWrappedFor.contains .skel,
+  t.attrWhitelist.all fun e => e.1 == .ro || e.1 == .skel,
+  !(t.attrAllowed ⟨true, false, false⟩).isEmpty,
+  !(t.attrAllowed ⟨false, false, true⟩).isEmpty,
+  !(t.attrAllowed ⟨true, false, true⟩).isEmpty,
+  attrMutMethods.all fun m => !(t.attrAllowed ⟨true, false, false⟩).contains m,
+  attrMutMethods.all fun m => !(t.attrAllowed ⟨true, false, true⟩).contains m,
+  attrValueMethods.all fun m => !(t.attrAllowed ⟨false, false, true⟩).contains m,
+  attrValueMethods.all fun m => !(t.attrAllowed ⟨true, false, true⟩).contains m]
+
+def TableOk (t : AclTable) : Bool := (tableConds t).all id
 
 /-- the table of the current source, written by hand (used by the driver; the extracted
 `Gen.aclTable` is checked against `TableOk` on every run) -/
